@@ -6,6 +6,7 @@ package main
 
 import (
 	"encoding/json"
+	"errors"
 	"flag"
 	"fmt"
 	"io"
@@ -26,6 +27,7 @@ import (
 
 type Step struct {
 	Doc   []sch.Def   `json:"doc"`
+	Via   string      `json:"via,omitempty"` // "types": delivered as Go-built types through Root.AddTypes
 	OK    bool        `json:"ok"`
 	Why   string      `json:"why"`
 	Off   string      `json:"off"`
@@ -92,6 +94,19 @@ func (m *memFS) Glob(pattern string) ([]string, error) {
 
 var loadCount int
 
+// loadStep delivers the document of a history step the way the step says.
+func loadStep(root *ggql.Root, st *Step) error {
+	if st.Via == "types" {
+		types, err := sch.Build(root, st.Doc)
+		if err != nil {
+			// (refused while being put together: an Add* method returned the error, the root was never involved)
+			return err
+		}
+		return root.AddTypes(types...)
+	}
+	return load(root, st.Doc)
+}
+
 func load(root *ggql.Root, defs []sch.Def) error {
 	text, faultAt := sch.DocText(defs)
 	loadCount++
@@ -136,10 +151,18 @@ func cmdLoadHist(args []string) {
 		sawFail := false
 		for si := range h.Hist {
 			st := &h.Hist[si]
-			key += "|" + docKey(st.Doc)
-			err := load(root, st.Doc)
+			key += "|" + st.Via + docKey(st.Doc)
+			err := loadStep(root, st)
+			if errors.Is(err, sch.ErrNotBuildable) {
+				rep.Class("not-buildable")
+				break
+			}
 			text, _ := sch.DocText(st.Doc)
 			cs := map[string]interface{}{"history": histText(h, si), "step": si + 1, "document": text, "tag": h.Tag}
+			if st.Via != "" {
+				cs["via"] = st.Via
+				rep.Class(fmt.Sprintf("via:%s ok=%v %s", st.Via, st.OK, st.Why))
+			}
 			rep.Class("why:" + st.Why)
 			if !st.OK {
 				sawFail = true
@@ -639,6 +662,9 @@ func histText(h *History, upto int) []string {
 		s := strings.ReplaceAll(strings.TrimSpace(t), "\n", " ")
 		if f >= 0 {
 			s += fmt.Sprintf(" [reader fails at byte %d]", f)
+		}
+		if h.Hist[i].Via == "types" {
+			s = "[built in Go, Root.AddTypes] " + s
 		}
 		out = append(out, s)
 	}
